@@ -284,6 +284,7 @@ func (p *Proxy) handleHTTP(r responder.Responder, proxyReq *http.Request) error 
 	clientHd := headers.ParseHeaderDirective(proxyReq.Header)
 	clientHd.StripRegularConditionals(proxyReq.Header)
 
+	restoreRawPath(proxyReq)
 	key := cache.MakeFromRequest(proxyReq)
 
 	return p.processRequest(r, proxyReq, key, clientHd)
